@@ -229,14 +229,11 @@ impl StreamAlphaNode {
                 WindowType::Sliding => {
                     let cutoff_time = current_time.saturating_sub(window_duration_ms);
 
-                    // Remove events older than cutoff
-                    while let Some(event) = self.events.front() {
-                        if event.metadata.timestamp < cutoff_time {
-                            self.events.pop_front();
-                        } else {
-                            break;
-                        }
-                    }
+                    // Remove events older than cutoff. Late (out-of-order) events can sit
+                    // behind fresher ones, so evicting from the front only would keep them
+                    // past the window.
+                    self.events
+                        .retain(|e| e.metadata.timestamp >= cutoff_time);
                 }
                 WindowType::Tumbling => {
                     let window_start = (current_time / window_duration_ms) * window_duration_ms;
@@ -249,14 +246,9 @@ impl StreamAlphaNode {
                         self.last_window_start = window_start;
                     }
 
-                    // Remove events from previous windows
-                    while let Some(event) = self.events.front() {
-                        if event.metadata.timestamp < window_start {
-                            self.events.pop_front();
-                        } else {
-                            break;
-                        }
-                    }
+                    // Remove events from previous windows (wherever they sit in the buffer)
+                    self.events
+                        .retain(|e| e.metadata.timestamp >= window_start);
                 }
                 WindowType::Session { timeout } => {
                     let timeout_ms = timeout.as_millis() as u64;
